@@ -1,7 +1,7 @@
 """Rule families shared by several properties."""
 from ..core import (B, L, SF, W, FnView, cname, rname, is_call_to, call_args, children, walk, line_of,
                     show, tmatch, poly, pshow, pow2form, pow2show, linform, is_none, some_of, is_len_of, NotPoly, enum_paths,
-                    TooManyPaths, diverges, subterms, contains, mk_bin, fmt_template, decode_format, lift_if, if_leaves,
+                    TooManyPaths, diverges, subterms, contains, mk_bin, fmt_template, decode_format, lift_if, if_leaves, string_pieces,
                     decode_arguments)
 from ..facts import norm_path
 from ..core import int_width, INT_TYS
@@ -478,6 +478,10 @@ def number_format_rule(ctx, rule, fv, who, root, norm_term, expect_norm_only=Fal
     """value formatting: under norm -> 6 decimals (NUMBER_SIZE-2), otherwise plain display"""
     fmts = [(n, ft, fv) for n, ft in formats_in(fv, root)
             if len(ft[1]) == 1 and ft[1][0][0] == "arg"]
+    # `x.to_string()` on a float is `format!("{}", x)`
+    for n in (walk(root) if root is not None else fv.nodes):
+        if n.get("k") == "mcall" and cname(n) == "std::string::ToString::to_string" and n["recv"].get("ty", "").lstrip("&") in ("f64", "f32"):
+            fmts.append((n, ("format", (("arg", 0, "display", None, None, None),), (fv.term(n["recv"]),)), fv))
     if not fmts and ctx is not None:
         for c, hv in helper_views(ctx, fv):
             if root is not None and not any(x is c for x in walk(root)):
@@ -1030,3 +1034,37 @@ def indexed_traversal(it):
                                 and s_[2] == X and s_[3] == item) and a[0] == "call" and a[1].endswith("unwrap")
             return X, item, is_elem
     return None, None, None
+
+
+
+def find_rows(fv, root=None, ctx=None):
+    """String values under root that are `<values>.join(<delim>)` followed by a newline, however they are assembled
+    (format!("{}\\n", ..), `.. + "\\n"`, or a local extended with push('\\n')).  Returns [(node, join_term, delim_term)]."""
+    out = []
+    seen = set()
+    cands = []
+    for n in (walk(root) if root is not None else fv.nodes):
+        k = n.get("k")
+        if k == "call" and cname(n) in ("std::fmt::format", "alloc::fmt::format"):
+            cands.append((n, fv.term(n)))
+        elif k == "closure":
+            body = n.get("body")
+            tail = body.get("expr") if isinstance(body, dict) and body.get("k") == "block" else body
+            if tail is not None:
+                cands.append((tail, fv.term(tail)))
+        elif k == "bin" and n.get("op") == "+" and n.get("ty", "").endswith("string::String"):
+            cands.append((n, fv.term(n)))
+    for n, t in cands:
+        ps = string_pieces(fv, t)
+        if len(ps) == 2 and ps[1] == ("lit", "\n") and ps[0][0] == "term":
+            j = ps[0][1]
+            is_header = contains(j, lambda s_: s_[0] == "call" and s_[1].endswith("::get_header"))
+            if j[0] == "call" and j[1].endswith("::join") and len(j) == 4 and repr(j) not in seen and not is_header:
+                seen.add(repr(j))
+                out.append((n, j, j[3]))
+    if not out and ctx is not None:
+        for c, hv in helper_views(ctx, fv):
+            if root is not None and not any(x is c for x in walk(root)):
+                continue
+            out.extend(find_rows(hv))
+    return out
